@@ -371,7 +371,7 @@ func (doc *T) derefHeaders(hs Headers, refNameResolver RefNameResolver, parentIs
 	for _, name := range componentNames(hs) {
 		h := hs[name]
 		isExternal := doc.addHeaderToSpec(h, refNameResolver, parentIsExternal)
-		if doc.isVisitedHeader(h.Value) {
+		if h == nil || h.Value == nil || doc.isVisitedHeader(h.Value) {
 			continue
 		}
 		doc.derefParameter(h.Value.Parameter, refNameResolver, parentIsExternal || isExternal)
